@@ -42,7 +42,8 @@ ASSUMPTIONS = [
     "(documented limitation for 2xN systems)",
 ]
 FLOORS = {"torus_length": 1000, "torus_vector": 1000, "ldf_walk": 1000,
-          "mesh": 500, "hexagon_ring": 5, "links": 6}
+          "mesh": 500, "hexagon_ring": 5, "hexagon_abandoned_search": 5,
+          "links": 6}
 SHARDS = {"quick": 16, "thorough": 64}
 ANCHORS = [
     ("rig.geometry", "shortest_torus_path_length",
@@ -59,7 +60,7 @@ VEC = [(1, 0), (1, 1), (0, 1), (-1, 0), (-1, -1), (0, -1)]  # link 0..5
 def plan(tier):
     n = QUICK_MAX if tier == "quick" else THOROUGH_MAX
     return [("torus", n * n), ("mesh", 4 if tier == "quick" else 16),
-            ("hexagon", 13 if tier == "quick" else 25), ("links", 1)]
+            ("hexagon", 26 if tier == "quick" else 50), ("links", 1)]
 
 
 def gen(cls, idx, rng, tier):
@@ -74,7 +75,7 @@ def gen(cls, idx, rng, tier):
                     far=0 if tier == "quick" else 1250,
                     seed=rng.randrange(1 << 30))
     if cls == "hexagon":
-        return dict(kind="hexagon", r=idx,
+        return dict(kind="hexagon", r=idx // 2, abandon=idx % 2,
                     start=(rng.randint(-20, 20), rng.randint(-20, 20)))
     return dict(kind="links")
 
@@ -273,7 +274,25 @@ def check_mesh_pair(ctx, g, ru, Links, a, b, dx, dy, dist, walk=True):
 def run_hexagon(case, ctx, g):
     r = case["r"]
     sx, sy = case["start"]
+    # usage history first: searches that stop at the first hit abandon the
+    # generator part-way, and two searches may be in progress at once
+    import itertools
+    k = (sx * 7 + sy * 3 + r) % (3 * r * (r + 1) + 2)
+    if case.get("abandon"):
+        part = list(itertools.islice(g.concentric_hexagons(r, (sy, sx)), k))
+        check(len(part) == min(k, 3 * r * (r + 1) + 1), "hexagon-count",
+              "%d of the first %d" % (len(part), k), r=r)
+        ctx.hit("hexagon_abandoned_search")
+    g1 = g.concentric_hexagons(r, (sx, sy))
+    g2 = g.concentric_hexagons(r, (sx, sy))
+    inter1, inter2 = [], []
+    for a, b in zip(g1, g2):
+        inter1.append(tuple(a))
+        inter2.append(tuple(b))
     pts = [tuple(p) for p in g.concentric_hexagons(r, (sx, sy))]
+    check(inter1 == pts and inter2 == pts, "hexagon-interleaved",
+          "two generators advanced alternately gave %d / %d points, a single "
+          "one %d" % (len(inter1), len(inter2), len(pts)), r=r)
     ctx.hit("hexagon_ring")
     check(len(pts) == len(set(pts)), "hexagon-duplicate",
           "%d points, %d distinct" % (len(pts), len(set(pts))), r=r)
